@@ -27,6 +27,10 @@ type Fault struct {
 	// Lookups: successful map lookups count and fail too (list lookups always do) — a node backed by storage
 	// (a sharded ADL with a missing shard) can fail to produce a child its iterator just listed
 	Lookups bool
+	// Once: only the access numbered After fails; the ones after it succeed again (a transient failure). Without
+	// it every access from that one on fails, which hides a caller that swallows the first error and trips over
+	// the second.
+	Once bool
 }
 
 func (f *Fault) tickScalar() error {
@@ -40,7 +44,7 @@ func (f *Fault) tick() error {
 	if f == nil {
 		return nil
 	}
-	if f.n >= f.After {
+	if f.n >= f.After && !(f.Once && f.Fired) {
 		f.Fired = true
 		return fmt.Errorf("fnode: injected iterator failure after %d entries", f.After)
 	}
